@@ -466,10 +466,15 @@ def render_all(ir):
             emit("!nil;", ind)      # three bytes: changes the parity of the padding
         elif k == "rectry":
             emit("{", ind)
-            emit("fn rt%d(n) { var q0 = n; var q1 = n + 1; var q2 = [n]; var q3 = q1; var q4 = q0; var q5 = 5; "
+            deep = len(st) > 4 and st[4] > 2
+            # (the deep variant keeps six try statements open per activation: some 270 handlers are live at the bottom)
+            pre = "try { try { try { try { try { " if deep else ""
+            post = (" } catch eo1 { print((\"ev\", %d, n, \"outer1\")); } } catch eo2 { print((\"ev\", %d, n, \"outer2\")); } } catch eo3 { print((\"ev\", %d, n, \"outer3\")); } }"
+                    " catch eo4 { print((\"ev\", %d, n, \"outer4\")); } } catch eo5 { print((\"ev\", %d, n, \"outer5\")); }" % ((st[2],) * 5)) if deep else ""
+            emit("fn rt%d(n) { var q0 = n; var q1 = n + 1; var q2 = [n]; var q3 = q1; var q4 = q0; var q5 = 5; %s"
                  "try { print((\"ev\", %d, n)); if n > 0 { rt%d(n - 1); } fail(print((\"chk\", \"%s\"))); print((\"ev\", %d, n, \"ok\", q0, q2[0])); } "
-                 "catch erec { print((\"ev\", %d, n, type(erec), q0, q1 + q3 + q4 + q5)); } return n; }" % (
-                st[1], st[1], st[1], st[3], st[2], st[2]), ind + 1)
+                 "catch erec { print((\"ev\", %d, n, type(erec), q0, q1 + q3 + q4 + q5)); }%s return n; }" % (
+                st[1], pre, st[1], st[1], st[3], st[2], st[2], post), ind + 1)
             emit("rt%d(%d);" % (st[1], st[4] if len(st) > 4 else 2), ind + 1)
             emit("}", ind)
         elif k == "lam":
